@@ -30,9 +30,9 @@ META = {
             'SHA/MD5/HMAC are oracles (not verified here).',
     'technique': 'Rocq/Coq proof over translator-regenerated model + vm_compute correspondence + independent references',
 }
-UNITS = ['C09_Poly1305', 'C09_ChaCha', 'C09_ChaChaPoly', 'C09_KDF']
+UNITS = ['C09_Poly1305', 'C09_ChaCha', 'C09_ChaChaPoly', 'C09_KDF', 'C09_RC4', 'C09_AesModes']
 MODEL_TARGETS = ['Gen/%s.vo' % u for u in UNITS] + ['Spec/C09_Poly1305.vo', 'Spec/C09_ChaCha.vo', 'Spec/C09_ChaChaPoly.vo',
-                                                  'Spec/C09_KDF.vo', 'Spec/C09_KeyCalc.vo', 'Model/C09_KeyCalc.vo', 'Toy/C09_ToyOracle.vo']
+                                                  'Spec/C09_KDF.vo', 'Spec/C09_KeyCalc.vo', 'Model/C09_KeyCalc.vo', 'Toy/C09_ToyOracle.vo', 'Spec/C09_Modes.vo']
 
 
 class State:
@@ -43,8 +43,9 @@ class State:
         self.sections = []
 
     def bad(self, key, what, replay):
-        self.found = True
-        self.ctx.violation(key, what, replay, found_input=True)
+        # a violation that matches a known finding is reported as such and must not mask anything else
+        if self.ctx.violation(key, what, replay, found_input=True):
+            self.found = True
 
 
 def lens_blocks(rng, bs, nblocks=5, extra=()):
@@ -601,7 +602,8 @@ def sec_kdf(S, quick):
         groups = [('aes128Suites', 'sha'), ('aes256Suites', 'sha256'), ('aes128GcmSuites', None), ('aes256GcmSuites', None),
                   ('chacha20Suites', None), ('tripleDESSuites', 'sha'), ('rc4Suites', 'md5'), ('aes128CcmSuites', None), ('nullSuites', 'sha')]
         for gname, _ in groups:
-            suites = sorted(getattr(CipherSuite, gname))
+            suites = [x for x in sorted(getattr(CipherSuite, gname))
+                      if runf(RecordLayer._getMacSettings, x)[1] == 0 and runf(RecordLayer._getCipherSettings, x)[1] == 0]
             for ver in [(3, 0), (3, 1), (3, 2), (3, 3)]:
                 if (gname.endswith('GcmSuites') or 'chacha' in gname or 'Ccm' in gname) and ver != (3, 3):
                     continue
@@ -686,7 +688,280 @@ def sec_kdf(S, quick):
     S.sections.append(sec)
 
 
-SECTIONS = [sec_poly, sec_chacha, sec_chachapoly, sec_kdf]
+# ============================================================================ RC4, CBC, CTR, block functions
+MODES_PRE = """
+Definition BT := (list (list Z * list Z))%type.
+Definition borc (t : option BT) : BlockOracle := match t with Some tbl => table_block_oracle tbl | None => toy_block_oracle end.
+Definition rb := res_matches list_eqb.
+(* a sequence of calls on one object: expected outputs (None = raised, with code) *)
+Fixpoint rc4_calls (st : RC4) (calls : list (bool * list Z * option (list Z) * Z)) : bool :=
+  match calls with
+  | [] => true
+  | (dec, data, want, code) :: rest =>
+      match (if dec then rc4_decrypt st data else rc4_encrypt st data) with
+      | Ok (st', out) => match want with Some w => list_eqb out w && rc4_calls st' rest | None => false end
+      | Err e => match want with None => Z.eqb (exn_code e) code && rc4_calls st rest | Some _ => false end
+      end
+  end.
+Fixpoint rc4_spec_calls (st : list Z * Z * Z) (calls : list (bool * list Z * option (list Z) * Z)) : bool :=
+  match calls with
+  | [] => true
+  | (dec, data, want, code) :: rest =>
+      let '(st', out) := rc4_crypt st data in
+      match want with Some w => list_eqb out w && rc4_spec_calls st' rest | None => false end
+  end.
+Fixpoint cbc_calls (O : BlockOracle) (st : AESCBC) (calls : list (bool * list Z * option (list Z) * Z)) : bool :=
+  match calls with
+  | [] => true
+  | (dec, data, want, code) :: rest =>
+      match (if dec then cbc_decrypt O st data else cbc_encrypt O st data) with
+      | Ok (st', out) => match want with Some w => list_eqb out w && cbc_calls O st' rest | None => false end
+      | Err e => match want with None => Z.eqb (exn_code e) code && cbc_calls O st rest | Some _ => false end
+      end
+  end.
+Fixpoint cbc_spec_calls (O : BlockOracle) (key iv : list Z) (calls : list (bool * list Z * option (list Z) * Z)) : bool :=
+  match calls with
+  | [] => true
+  | (dec, data, want, code) :: rest =>
+      match want with
+      | Some w =>
+          let '(iv', out) := if dec then cbc_decrypt_spec (bo_dec O key) 16 iv data else cbc_encrypt_spec (bo_enc O key) 16 iv data in
+          list_eqb out w && cbc_spec_calls O key iv' rest
+      | None => negb (Z.eqb (Z.modulo (zlen data) 16) 0)
+      end
+  end.
+Fixpoint ctr_calls (O : BlockOracle) (st : AESCTR) (calls : list (bool * list Z * option (list Z) * Z)) : bool :=
+  match calls with
+  | [] => true
+  | (dec, data, want, code) :: rest =>
+      match (if dec then ctr_decrypt O st data else ctr_encrypt O st data) with
+      | Ok (st', out) => match want with Some w => list_eqb out w && ctr_calls O st' rest | None => false end
+      | Err e => match want with None => Z.eqb (exn_code e) code && ctr_calls O st rest | Some _ => false end
+      end
+  end.
+"""
+
+
+def blk_table_lit(table):
+    ents = []
+    for (d, key, blk), v in sorted(table.items(), key=lambda kv: kv[0][2]):
+        ents.append('(%s,%s)' % (blit(bytes([d, len(key)]) + key + blk), blit(v)))
+    return '[' + ';'.join(ents) + ']'
+
+
+def call_lit(calls):
+    return '[' + ';'.join('(%s, %s, %s, %d)' % ('true' if d else 'false', blit(x), olit(w), c) for d, x, w, c in calls) + ']'
+
+
+def split3(rng, total_parts, offsets=None):
+    return None
+
+
+def sec_modes(S, quick):
+    from tlslite.utils import python_aes, python_rc4, python_tripledes
+    from tlslite.utils.rijndael import Rijndael
+    ctx, rng = S.ctx, S.ctx.rng
+    sec = Section('C09mode', ['Base.C09_Oracle', 'Gen.C09_RC4', 'Gen.C09_AesModes', 'Spec.C09_Modes', 'Toy.C09_ToyOracle'], 'bool', MODES_PRE)
+    sec.fns = [('(fun b : bool => b)', 'model', 'modes:model+coqspec-vs-impl')]
+    # ---------------- RC4: one object, several calls; every split offset of 3 messages
+    msgs = [rbytes(rng, n) for n in ((5, 17, 40) if quick else (5, 17, 40, 300))]
+    n_ossl = 0
+    for m in msgs + [b'', rbytes(rng, 1)]:
+        key = rbytes(rng, rng.choice([16, 16, 5 + 11, 32, 256]))
+        whole = ref.rc4_crypt(ref.rc4_init(key), m)
+        if len(m) > 1 and n_ossl < 3 and len(key) == 16:
+            n_ossl += 1
+            o = ref.ossl_rc4(key, m)
+            ctx.count('modes:impl-vs-openssl', 1, [('rc4',)])
+            if o != whole:
+                raise RuntimeError('reference RC4 disagrees with openssl')
+        for off in range(0, len(m) + 1):
+            for off2 in ({off, len(m)} if quick or len(m) > 60 else range(off, len(m) + 1)):
+                parts = [m[:off], m[off:off2], m[off2:]]
+                obj = python_rc4.new(bytearray(key))
+                dobj = python_rc4.new(bytearray(key))
+                calls, got, dec = [], b'', b''
+                for ptx in parts:
+                    v, code = runf(lambda: bytes(obj.encrypt(bytearray(ptx))))
+                    calls.append((False, ptx, v, code))
+                    got += v or b''
+                    d, dcode = runf(lambda: bytes(dobj.decrypt(bytearray(v or b''))))
+                    dec += d or b''
+                cls = ('rc4', 'split@%s' % ('0' if off == 0 else ('end' if off == len(m) else 'mid')))
+                if got != whole:
+                    S.bad('rc4_stream_split', 'Python_RC4: enc(a)+enc(b)+enc(c) on one object differs from RC4 of a+b+c (split %d,%d of %d)' % (off, off2, len(m)),
+                          {'unit': 'rc4', 'key': key.hex(), 'msg': m.hex(), 'splits': [off, off2], 'impl': got.hex(), 'rfc': whole.hex()})
+                if dec != m:
+                    S.bad('rc4:decrypt(encrypt)!=id', 'Python_RC4 decrypt does not invert encrypt across calls',
+                          {'unit': 'rc4', 'key': key.hex(), 'msg': m.hex(), 'splits': [off, off2]})
+                ctx.count('modes:impl-vs-rfc-python', 1, [cls])
+                if off2 in (off, len(m)) and (off % 7 == 0 or off == len(m)):
+                    st0 = ref.rc4_init(key)
+                    sec.add('match rc4_init %s with Ok st => rc4_calls st %s | Err _ => false end && rc4_spec_calls (rc4_ksa %s, 0, 0) %s' % (
+                        blit(key), call_lit(calls), blit(key), call_lit(calls)), {'unit': 'rc4', 'key': key.hex(), 'msg': m.hex(), 'splits': [off, off2]})
+    for kl in (0, 15, 257):
+        k = rbytes(rng, kl)
+        _, code = runf(python_rc4.new, bytearray(k))
+        sec.add('match rc4_init %s with Ok _ => false | Err e => Z.eqb (exn_code e) %d end' % (blit(k), code), {'unit': 'rc4', 'badkey': kl})
+        if code != 2:
+            S.bad('rc4:badkey-accepted', 'Python_RC4 accepts a key of %d bytes' % kl, {'unit': 'rc4', 'kl': kl})
+
+    # ---------------- recording wrapper for the AES block function
+    class RecRijndael(object):
+        def __init__(self, inner, key, table):
+            self.inner, self.key, self.table = inner, bytes(key), table
+
+        def encrypt(self, b):
+            r = self.inner.encrypt(b)
+            self.table[(1, self.key, bytes(b))] = bytes(r)
+            return r
+
+        def decrypt(self, b):
+            r = self.inner.decrypt(b)
+            self.table[(2, self.key, bytes(b))] = bytes(r)
+            return r
+    # ---------------- AES-CBC (python_aes mode 2): lengths 0..5 blocks, calls split at every block boundary
+    for kl in (16, 24, 32):
+        for nb in ([0, 1, 2, 5] if quick else [0, 1, 2, 3, 4, 5, 8]):
+            key, iv, m = rbytes(rng, kl), rbytes(rng, 16), rbytes(rng, 16 * nb)
+            want = ref.ossl_cbc('aes-%d-cbc' % (kl * 8), key, iv, m) if nb else b''
+            ctx.count('modes:impl-vs-openssl', 1, [('cbc', kl, nb)])
+            for a in range(0, nb + 1):
+                for b in ({a, nb} if quick else range(a, nb + 1)):
+                    parts = [m[:16 * a], m[16 * a:16 * b], m[16 * b:]]
+                    table = {}
+                    obj = python_aes.new(bytearray(key), 2, bytearray(iv))
+                    obj.rijndael = RecRijndael(obj.rijndael, key, table)
+                    dobj = python_aes.new(bytearray(key), 2, bytearray(iv))
+                    dobj.rijndael = RecRijndael(dobj.rijndael, key, table)
+                    calls, dcalls, got, dec = [], [], b'', b''
+                    for ptx in parts:
+                        v, code = runf(lambda: bytes(obj.encrypt(bytearray(ptx))))
+                        calls.append((False, ptx, v, code))
+                        got += v or b''
+                        d, dcode = runf(lambda: bytes(dobj.decrypt(bytearray(v or b''))))
+                        dcalls.append((True, v or b'', d, dcode))
+                        dec += d or b''
+                    if got != want:
+                        S.bad('cbc_stream_split:aes', 'Python_AES (CBC): calls split at blocks %d,%d of %d differ from one-shot AES-CBC (openssl)' % (a, b, nb),
+                              {'unit': 'cbc', 'key': key.hex(), 'iv': iv.hex(), 'msg': m.hex(), 'splits': [a, b], 'impl': got.hex(), 'openssl': want.hex()})
+                    if dec != m:
+                        S.bad('cbc_dec_enc:aes', 'Python_AES (CBC): decrypt does not invert encrypt across calls',
+                              {'unit': 'cbc', 'key': key.hex(), 'iv': iv.hex(), 'msg': m.hex(), 'splits': [a, b]})
+                    ctx.count('modes:impl-vs-rfc-python', 1, [('cbc', kl, nb, a == 0, b == nb)])
+                    if b in (a, nb) and nb <= 2:
+                        o_ = '(Some %s)' % blk_table_lit(table)
+                        sec.add('match cbc_init (borc %s) %s 2 %s with Ok st => cbc_calls (borc %s) st %s && cbc_calls (borc %s) st %s | Err _ => false end'
+                                ' && cbc_spec_calls (borc %s) %s %s %s && cbc_spec_calls (borc %s) %s %s %s' % (
+                                    o_, blit(key), blit(iv), o_, call_lit(calls), o_, call_lit(dcalls),
+                                    o_, blit(key), blit(iv), call_lit(calls), o_, blit(key), blit(iv), call_lit(dcalls)),
+                                {'unit': 'cbc', 'key': key.hex(), 'iv': iv.hex(), 'msg': m.hex(), 'splits': [a, b]})
+    for n in (1, 15, 17, 31):
+        obj = python_aes.new(bytearray(16), 2, bytearray(16))
+        v, code = runf(lambda: bytes(obj.encrypt(bytearray(n))))
+        if code != 3:
+            S.bad('cbc:partial-block-accepted', 'Python_AES.encrypt accepts %d bytes' % n, {'unit': 'cbc', 'n': n})
+        sec.add('match cbc_init (borc None) %s 2 %s with Ok st => cbc_calls (borc None) st %s | Err _ => false end' % (
+            blit(bytes(16)), blit(bytes(16)), call_lit([(False, bytes(n), None, code)])), {'unit': 'cbc', 'partial': n})
+    for kl, ivl, mode in ((15, 16, 2), (16, 15, 2), (16, 17, 6), (16, 16, 3), (33, 16, 2)):
+        _, code = runf(python_aes.new, bytearray(kl), mode, bytearray(ivl))
+        if mode in (2, 6):
+            fn = 'cbc_init' if mode == 2 else 'ctr_init'
+            sec.add('match %s (borc None) %s %d %s with Ok _ => false | Err e => Z.eqb (exn_code e) %d end' % (fn, blit(bytes(kl)), mode, blit(bytes(ivl)), code),
+                    {'unit': 'aes-init', 'kl': kl, 'ivl': ivl, 'mode': mode})
+    # ---------------- AES-CTR (Python_AES_CTR): one-shot vs SP 800-38A, then multi-call splits at every offset
+    for kl in (16, 32):
+        for L in ([0, 1, 15, 16, 17, 40] if quick else [0, 1, 15, 16, 17, 31, 32, 33, 40, 80, 81]):
+            key, m = rbytes(rng, kl), rbytes(rng, L)
+            ivl = rng.choice([16, 12, 16, 4])
+            ivb = rbytes(rng, ivl)
+            if ivl == 16 and rng.random() < 0.4:
+                ivb = ivb[:12] + b'\xff\xff\xff' + bytes([rng.choice([0xfe, 0xff, 0xfd])])     # carry across bytes / wrap
+            t0 = ivb + bytes(16 - ivl)
+            want = ref.ossl_ctr(key, t0, m) if L else b''
+            ctx.count('modes:impl-vs-openssl', 1, [('ctr', kl, L % 16 == 0)])
+            table = {}
+            obj = python_aes.new(bytearray(key), 6, bytearray(ivb))
+            obj.rijndael = RecRijndael(obj.rijndael, key, table)
+            v, code = runf(lambda: bytes(obj.encrypt(bytearray(m))))
+            meta = {'unit': 'ctr', 'key': key.hex(), 'iv': ivb.hex(), 'msg': m.hex()}
+            if v != want:
+                S.bad('ctr_eq_spec', 'Python_AES_CTR.encrypt (one call) differs from SP 800-38A CTR (openssl aes-ctr)', dict(meta, impl=hexs(v), code=code, openssl=want.hex()))
+            ctx.count('modes:impl-vs-rfc-python', 1, [('ctr-oneshot', kl, L % 16, ivl)])
+            o_ = '(Some %s)' % blk_table_lit(table)
+            sec.add('match ctr_init (borc %s) %s 6 %s with Ok st => ctr_calls (borc %s) st %s | Err _ => false end && '
+                    'match %s with Some w => list_eqb (ctr_crypt_spec (bo_enc (borc %s) %s) 16 %s %s) w | None => true end' % (
+                        o_, blit(key), blit(ivb), o_, call_lit([(False, m, v, code)]), olit(v), o_, blit(key), blit(t0), blit(m)), meta)
+            # the property text: "multi-call streaming state for CBC/RC4/CTR": enc(a) + enc(b) must equal enc(a + b)
+            if L in (17, 40, 81):
+                for off in range(0, L + 1):
+                    table = {}
+                    obj = python_aes.new(bytearray(key), 6, bytearray(ivb))
+                    obj.rijndael = RecRijndael(obj.rijndael, key, table)
+                    calls, got = [], b''
+                    for ptx in (m[:off], m[off:]):
+                        v2, c2 = runf(lambda: bytes(obj.encrypt(bytearray(ptx))))
+                        calls.append((False, ptx, v2, c2))
+                        got += v2 or b''
+                    ctx.count('modes:impl-vs-rfc-python', 1, [('ctr-split', off % 16 == 0)])
+                    if got != want:
+                        S.bad('ctr_stream_split:offset%16!=0' if off % 16 else 'ctr_stream_split:aligned',
+                              'Python_AES_CTR: enc(a)+enc(b) on one object differs from enc(a+b) when the first call ends inside a block '
+                              '(split at %d of %d): the unused key stream of the partial block is dropped' % (off, L),
+                              dict(meta, split=off, impl=got.hex(), openssl=want.hex()))
+                    if off in (0, 5, 16, 17, L) and L == 17:
+                        o_ = '(Some %s)' % blk_table_lit(table)
+                        sec.add('match ctr_init (borc %s) %s 6 %s with Ok st => ctr_calls (borc %s) st %s | Err _ => false end' % (
+                            o_, blit(key), blit(ivb), o_, call_lit(calls)), dict(meta, split=off))
+    # ---------------- 3DES-CBC (python_tripledes): correspondence only (hand model = CBC spec over the DES-EDE block oracle)
+    for kl in (24, 16):
+        for nb in ([0, 1, 3] if quick else [0, 1, 2, 3, 5]):
+            key, iv, m = rbytes(rng, kl), rbytes(rng, 8), rbytes(rng, 8 * nb)
+            want = ref.ossl_cbc('des-ede3-cbc' if kl == 24 else 'des-ede-cbc', key, iv, m) if nb else b''
+            ctx.count('modes:impl-vs-openssl', 1, [('3des-cbc', kl, nb)])
+            for a in range(0, nb + 1):
+                obj = python_tripledes.new(bytearray(key), bytearray(iv))
+                dobj = python_tripledes.new(bytearray(key), bytearray(iv))
+                got, dec = b'', b''
+                for ptx in (m[:8 * a], m[8 * a:]):
+                    v, code = runf(lambda: bytes(obj.encrypt(bytearray(ptx))))
+                    got += v or b''
+                    d, _ = runf(lambda: bytes(dobj.decrypt(bytearray(v or b''))))
+                    dec += d or b''
+                if got != want:
+                    S.bad('cbc_stream_split:3des', 'Python_TripleDES: calls split at block %d of %d differ from one-shot 3DES-CBC (openssl)' % (a, nb),
+                          {'unit': '3des', 'key': key.hex(), 'iv': iv.hex(), 'msg': m.hex(), 'split': a, 'impl': got.hex(), 'openssl': want.hex()})
+                if dec != m:
+                    S.bad('cbc_dec_enc:3des', 'Python_TripleDES: decrypt does not invert encrypt across calls',
+                          {'unit': '3des', 'key': key.hex(), 'iv': iv.hex(), 'msg': m.hex(), 'split': a})
+                ctx.count('modes:impl-vs-rfc-python', 1, [('3des-cbc', kl, nb, a)])
+    # ---------------- the block functions themselves: correspondence only (oracles in every theorem)
+    nist = [('2b7e151628aed2a6abf7158809cf4f3c', '6bc1bee22e409f96e93d7e117393172a', '3ad77bb40d7a3660a89ecaf32466ef97'),
+            ('8e73b0f7da0e6452c810f32b809079e562f8ead2522c6b7b', '6bc1bee22e409f96e93d7e117393172a', 'bd334f1d6e45f25ff712a214571fa5cc'),
+            ('603deb1015ca71be2b73aef0857d77811f352c073b6108d72d9810a30914dff4', '6bc1bee22e409f96e93d7e117393172a', 'f3eed1bdb5d2a03c064b5a7e3db181f8'),
+            ('000102030405060708090a0b0c0d0e0f', '00112233445566778899aabbccddeeff', '69c4e0d86a7b0430d8cdb78070b4c55a')]
+    for k, p_, c_ in nist:
+        r = Rijndael(bytearray(bytes.fromhex(k)), 16)
+        e, d = bytes(r.encrypt(bytearray(bytes.fromhex(p_)))), bytes(r.decrypt(bytearray(bytes.fromhex(c_))))
+        ctx.count('blockcipher:impl-vs-vectors', 1, [('aes', len(k) // 2)])
+        if e.hex() != c_ or d.hex() != p_:
+            S.bad('aes-block!=fips197', 'Rijndael block function fails a FIPS-197 / SP 800-38A vector', {'unit': 'aes-block', 'key': k, 'pt': p_, 'impl': e.hex()})
+    for kl in (16, 24, 32):
+        for _ in range(2 if quick else 10):
+            key = rng.choice([rbytes(rng, kl), bytes(kl), b'\xff' * kl])
+            blocks = [rng.choice([rbytes(rng, 16), bytes(16), b'\xff' * 16]) for _ in range(8 if quick else 40)]
+            r = Rijndael(bytearray(key), 16)
+            enc = b''.join(bytes(r.encrypt(bytearray(b))) for b in blocks)
+            want = ref.aes_ecb(key, b''.join(blocks))
+            dec = b''.join(bytes(r.decrypt(bytearray(want[i:i + 16]))) for i in range(0, len(want), 16))
+            ctx.count('blockcipher:impl-vs-openssl', len(blocks), [('aes', kl)])
+            if enc != want or dec != b''.join(blocks):
+                S.bad('aes-block!=openssl', 'Rijndael encrypt/decrypt differs from `openssl enc -aes-%d-ecb`' % (kl * 8),
+                      {'unit': 'aes-block', 'key': key.hex(), 'blocks': b''.join(blocks).hex()})
+    S.sections.append(sec)
+
+
+SECTIONS = [sec_poly, sec_chacha, sec_chachapoly, sec_kdf, sec_modes]
 
 
 # ============================================================================ driver
